@@ -1,4 +1,6 @@
-import MlModel.Lemmas.PrefetchOne
+import MlModel.Lemmas.PrefetchReplay
+import MlModel.Lemmas.PrefetchGen
+import MlModel.Properties.C05
 /-!
 # C15 — the prefetching generator protocol delivers the generator faithfully
 
@@ -18,23 +20,6 @@ open MlModel.Prefetch
 open MlModel.Queue (Elem Item Raise asItems Spsc)
 
 variable {p b : Nat} {g : Gen} {c : Cfg} {tc : Thread}
-
-/-- the values of a list of (tagged) elements -/
-def valuesOf (l : List Elem) : List Nat := l.map (·.2)
-
-theorem val_inj : ∀ x y, Item.val x = Item.val y → x = y := fun _ _ h => by cases h; rfl
-
-theorem vals_fail_inj : ∀ (xs ys : List Nat) (r r' : List Item),
-    xs.map Item.val ++ Item.fail :: r = ys.map Item.val ++ Item.fail :: r' → xs = ys
-  | [], [], _, _, _ => rfl
-  | [], y :: ys, _, _, h => by simp at h
-  | x :: xs, [], _, _, h => by simp at h
-  | x :: xs, y :: ys, r, r', h => by
-    simp only [List.map_cons, List.cons_append, List.cons.injEq, Item.val.injEq] at h
-    rw [h.1, vals_fail_inj xs ys r r' h.2]
-
-theorem asItems_eq (l : List Elem) : asItems l = (valuesOf l).map Item.val := by
-  simp [asItems, valuesOf]
 
 /-- **Faithful prefix** (every schedule, every moment): what the client has yielded so far is exactly an
 initial segment of the generator's items, all of them values — in order, each once, nothing invented,
@@ -59,25 +44,6 @@ theorem C15_faithful_prefix (h : Reachable (init p [.client g b]) c) (ht : c.ths
     congr 1
     conv => lhs; rw [hd]
     simp [asItems]
-
-/-- what the invariant says about a client whose loop has ended -/
-theorem client_done (h : Reachable (init p [.client g b]) c) (ht : c.ths[1]? = some tc)
-    (hd : tc.pc = .done) :
-    tc.outcome.isSome = true ∧ MarkerOK g tc.yielded tc.outcome ∧
-    ∃ ini last, tc.replies = ini ++ [last] ∧ (∀ r ∈ ini, r.marker = none) ∧ last.marker = tc.outcome := by
-  obtain ⟨tm, tc', otp, hths, -, -, -, -, hcore⟩ := rinv_reachable h
-  rw [hths] at ht
-  simp only [List.getElem?_cons_succ, List.getElem?_cons_zero, Option.some.injEq] at ht
-  subst ht
-  cases otp with
-  | none =>
-    obtain ⟨-, -, -, -, -, hph⟩ := hcore
-    rcases hph with ⟨hpc | hpc, -⟩ | ⟨hpc, -⟩ <;> rw [hd] at hpc <;> cases hpc
-  | some tp =>
-    obtain ⟨-, -, -, -, -, q0, -, -, hcl⟩ := hcore
-    unfold ClientC at hcl
-    simp only [hd] at hcl
-    exact ⟨hcl.2.2.1, hcl.2.2.2.1, hcl.2.2.2.2⟩
 
 /-
 FULL STATEMENT (C15_faithful): for every schedule the client's loop ENDS, having yielded exactly the
@@ -146,5 +112,106 @@ theorem C15_failure_partial {xs : List Nat} {rest : List Item} (hsrc : g.src = x
       obtain ⟨he, rest', hs⟩ := hm
       rw [asItems_eq, hsrc] at hs
       exact ⟨(vals_fail_inj _ _ _ _ hs).symm, by rw [he]⟩
+
+/-! ### Non-vacuity of the one-client theorems (tests of the definitions)
+
+A schedule taken from a run of the real code (prefetch 1, batch 1 / 2), replayed on the model. -/
+
+def schedOk : List Queue.Tid :=
+  [1, 1, 1, 1, 1, 1, 1, 1, 1, 1, 1, 1, 1, 2, 2, 2, 2, 2, 2, 2, 2, 2, 2, 2, 2, 1, 1, 1, 1, 1, 1, 1, 1, 1, 1, 1, 1,
+   1, 1, 1, 1, 1, 2, 2, 2, 2, 2, 2, 2, 2, 1, 1, 1, 1, 1, 1, 1, 1, 2, 2, 2, 2, 2, 2, 2, 0, 0, 0]
+
+def schedFail : List Queue.Tid :=
+  [1, 1, 1, 1, 1, 1, 1, 1, 1, 1, 1, 1, 1, 2, 2, 2, 2, 2, 2, 2, 2, 2, 2, 2, 2, 1, 1, 1, 1, 1, 1, 1, 1, 1, 1, 1, 1,
+   1, 1, 1, 2, 2, 2, 2, 2, 2, 2, 2, 1, 1, 1, 1, 1, 1, 1, 1, 1, 1, 1, 2, 2, 2, 2, 2, 2, 2, 0, 0, 0]
+
+/-- a client really reaches `done` on the generator `[7]` returning 900: the hypotheses of
+`C15_faithful_partial` are met by a reachable configuration, with the outcome the theorem states -/
+example : ∃ c, Reachable (init 1 [.client ⟨[.val 7], 900⟩ 1]) c ∧
+    obs c 1 = some (true, [7], some (.stop [900])) :=
+  ⟨_, reachable_replay (init 1 [.client ⟨[.val 7], 900⟩ 1]) schedOk (by decide), by decide⟩
+
+/-- … and on the generator that yields 7 and then raises, with batch size 2 (the F7 situation: the
+failure is met while the batch holds an element) -/
+example : ∃ c, Reachable (init 1 [.client ⟨[.val 7, .fail], 900⟩ 2]) c ∧
+    obs c 1 = some (true, [7], some (.err .value)) :=
+  ⟨_, reachable_replay (init 1 [.client ⟨[.val 7, .fail], 900⟩ 2]) schedFail (by decide), by decide⟩
+
+/-! ### Re-initialisation, stop and shutdown with arbitrary concurrent requests -/
+
+/-
+FULL STATEMENT (C15_reinit): `_init_iterator` / shutdown during an active generator stops the old
+prefetch thread (it reaches its final pc), no handler stays blocked, and no batch answered after the
+switch contains elements of the old generator mixed with the new one's.
+
+Proved: the mixing clause at full strength for every reachable configuration of ANY set of concurrent
+request threads (`C15_reinit_no_mixing`); for the stop clause the two step-level facts that carry it —
+the new generator is installed only after the join with the old prefetch thread, which is enabled only
+when that thread is at its final pc (`C15_reinit_stop_joins`), and the stop's `notify_all` releases every
+request parked on the old queue (`C15_reinit_stop_wakes`).  Not proved in Lean: that an old generator
+whose stop is skipped because it is already `exhausted` has a prefetch thread past its last `put`
+(it is inside `_stop_enqueue`), and "no handler stays blocked for ever" (liveness).  Both are decided on
+the real code by the scheduler-driven oracle (any thread left blocked is reported with its schedule)
+and on the model by exhaustive exploration of small configurations.
+-/
+
+/-- **No mixing** (every schedule, any number of concurrent clients and init / next / stop / shutdown
+requests): all elements of every reply ever answered were enqueued by a prefetch thread of the ONE
+queue the request read from `self._generator` at its start — a reply never contains elements of two
+generators, whatever re-initialisations, stops or shutdowns happen while the request is in flight. -/
+theorem C15_reinit_no_mixing {progs : List Prog} (hreq : Requests progs)
+    (h : Reachable (init p progs) c) {tid : Queue.Tid} {t : Thread} (ht : c.ths[tid]? = some t)
+    {r : Reply} (hr : r ∈ t.replies) {k : Nat} (hk : r.g = some k) :
+    ∀ e ∈ r.elems, ∃ tp, c.ths[e.1]? = some tp ∧ tp.prog = .producer k :=
+  ((ginv_reachable hreq h).ths tid t ht).replies r hr k hk
+
+/-- the same for everything that was ever put into the k-th queue, and the queue is FIFO -/
+theorem C15_queue_provenance {progs : List Prog} (hreq : Requests progs)
+    (h : Reachable (init p progs) c) {k : Nat} {q : Queue.Shared} (hq : c.sh.qs[k]? = some q) :
+    q.produced = q.dequeued ++ q.q ∧ ∀ e ∈ q.produced, ∃ tp, c.ths[e.1]? = some tp ∧ tp.prog = .producer k :=
+  ⟨((ginv_reachable hreq h).qs k q hq).fifo, ((ginv_reachable hreq h).qs k q hq).tags⟩
+
+/-- **A stop joins the old prefetch thread**: the step that follows `maybe_stop` in a locked stop — after
+which `_init_iterator` installs the new generator, resp. `_stop_prefetch` / shutdown return — is enabled
+only when the thread recorded in `_enqueue_thread` has reached its final program point. -/
+theorem C15_reinit_stop_joins {tid : Queue.Tid} {t : Thread} {lbl : String} {c' : Cfg}
+    (ht : c.ths[tid]? = some t) (hpc : t.pc = .lkJoin) (hs : step c tid = some (lbl, c')) :
+    ∃ pt tp, c.sh.enqThread = some pt ∧ c.ths[pt]? = some tp ∧ tp.pc = .done := by
+  unfold step at hs
+  simp only [ht, hpc] at hs
+  cases he : c.sh.enqThread with
+  | none => simp [he] at hs
+  | some pt =>
+    simp only [he] at hs
+    cases hp : c.ths[pt]? with
+    | none => simp [hp] at hs
+    | some tp =>
+      simp only [hp] at hs
+      split at hs
+      · simp at hs
+      · rename_i hne
+        exact ⟨pt, tp, rfl, hp, by simpa using hne⟩
+
+/-- **A stop releases the requests parked on the old queue**: the `notify_all` of the stop's `maybe_stop`
+moves every request parked in `get_batch` on that queue to the notified set (they then meet the
+exhausted queue and answer with the stop's exception as end marker). -/
+theorem C15_reinit_stop_wakes {tid : Queue.Tid} {t : Thread} {lbl : String} {c' : Cfg} {q : Queue.Shared}
+    (ht : c.ths[tid]? = some t) (hpc : t.pc = .lkStop) (hqt : t.qt.pc = .mD1)
+    (hq : c.sh.qs[t.g]? = some q) (hs : step c tid = some (lbl, c')) :
+    ∃ q', c'.sh.qs[t.g]? = some q' ∧ q'.deqWait = [] ∧ q'.deqNotified = q.deqNotified ++ q.deqWait := by
+  have hlt : t.g < c.sh.qs.length := by
+    rcases List.getElem?_eq_some_iff.mp hq with ⟨h, _⟩; exact h
+  unfold step at hs
+  simp only [ht, hpc, hq] at hs
+  cases hst : Queue.stepThread q t.qt tid false with
+  | none => simp [hst] at hs
+  | some res =>
+    obtain ⟨lbl0, q', qt'⟩ := res
+    simp only [hst] at hs
+    obtain ⟨h1, h2⟩ := MlModel.C05.C05_stop_unblocks_consumers hqt hst
+    refine ⟨q', ?_, h1, h2⟩
+    (repeat' split at hs) <;> simp only [Option.some.injEq, Prod.mk.injEq] at hs <;> obtain ⟨-, rfl⟩ := hs <;>
+      simp [setTh, afterStop, install, List.getElem?_set_self hlt, List.getElem?_append_left, hlt] <;>
+      (repeat' split) <;> simp [List.getElem?_set_self hlt, List.getElem?_append_left, hlt]
 
 end MlModel.C15
